@@ -186,6 +186,12 @@ type task struct {
 	red    []Tuple
 	plain  []Form
 	consts []Form
+	same   []sameForm // forms in which two (or three) operands are the very same value
+}
+
+type sameForm struct {
+	form   Form
+	tuples []Tuple
 }
 
 type reporter func(m mismatch, t Tuple, class string)
@@ -225,10 +231,10 @@ type session struct {
 	rep   reporter
 }
 
-func (w *worker) open(op *rs.Op, forms []Form, red []Tuple, st *stats, rep reporter) *session {
+func (w *worker) open(op *rs.Op, forms []Form, redFor func(Form) []Tuple, st *stats, rep reporter) *session {
 	ctx := context.Background()
 	s := &session{w: w, op: op, forms: forms, st: st, rep: rep}
-	s.bm = buildModule(op, forms, red)
+	s.bm = buildModule(op, forms, redFor)
 	st.funcs.Add(int64(s.bm.nfuncs) * 2)
 	st.modules.Add(2)
 	for e := 0; e < 2; e++ {
@@ -314,7 +320,17 @@ func (s *session) run(forms []Form, tuples []Tuple, exp []rs.Res) {
 
 func (w *worker) runTask(tk *task, st *stats, rep reporter) {
 	forms := append(append([]Form{}, tk.plain...), tk.consts...)
-	s := w.open(tk.op, forms, tk.red, st, rep)
+	for _, sf := range tk.same {
+		forms = append(forms, sf.form)
+	}
+	s := w.open(tk.op, forms, func(f Form) []Tuple {
+		for _, sf := range tk.same {
+			if sf.form == f {
+				return sf.tuples
+			}
+		}
+		return tk.red
+	}, st, rep)
 	defer s.close()
 	var expFull []rs.Res
 	if len(tk.plain) > 0 {
@@ -327,6 +343,9 @@ func (w *worker) runTask(tk *task, st *stats, rep reporter) {
 			expRed = s.expect(tk.red)
 		}
 		s.run(tk.consts, tk.red, expRed)
+	}
+	for _, sf := range tk.same {
+		s.run([]Form{sf.form}, sf.tuples, s.expect(sf.tuples))
 	}
 }
 
